@@ -703,45 +703,57 @@ theorem rtMatches_percent (rt : RateTotal) (cb : Combo) (h : rtMatches rt cb = t
           simp only [hp, hq, Bool.and_eq_true] at h
           exact Or.inr ⟨p, q, rfl, rfl, amtEq_toRat _ _ h.2⟩
 
-/-- a tax combo of the covered class: not retained, no surcharge, exempt or a percentage of at
-most 100 % in magnitude -/
-def ComboOk (cb : Combo) : Prop :=
-  cb.retained = false ∧ cb.surcharge = none ∧ ∀ p, cb.percent = some p → |p.amount.toRat| ≤ 1
+variable {ret : String → Bool}
 
-def comboQ (t : ℚ) (cb : Combo) : ℚ :=
+/-- a tax combo of the covered class: no surcharge, exempt or a percentage of at most 100 % in
+magnitude; whether it is retained (subtracted) is a function `ret` of its category alone -/
+def ComboOk (ret : String → Bool) (cb : Combo) : Prop :=
+  cb.retained = ret cb.cat ∧ cb.surcharge = none ∧ ∀ p, cb.percent = some p → |p.amount.toRat| ≤ 1
+
+/-- magnitude of the exact tax of one combo on a row total `t` -/
+def comboU (t : ℚ) (cb : Combo) : ℚ :=
   match cb.percent with
   | some p => t * p.amount.toRat
   | none => 0
 
+/-- … signed: retained taxes are subtracted -/
+def comboQ (t : ℚ) (cb : Combo) : ℚ := if cb.retained then -(comboU t cb) else comboU t cb
+
 /-- the exact tax of a row with total `t` (prices not including tax), as `Spec.C01.exactQ` has it -/
 def rowQ (t : ℚ) (taxes : List Combo) : ℚ := (Spec.C01.rowTaxQ none t taxes).1
 
-theorem rowQ_eq (t : ℚ) (taxes : List Combo) (h : ∀ cb ∈ taxes, ComboOk cb) :
+theorem rowQ_eq (t : ℚ) (taxes : List Combo) (h : ∀ cb ∈ taxes, ComboOk ret cb) :
     rowQ t taxes = (taxes.map (comboQ t)).sum := by
   unfold rowQ Spec.C01.rowTaxQ
   simp only
   congr 1
   apply List.map_congr_left
   intro cb hcb
-  obtain ⟨hr, hs, _⟩ := h cb hcb
-  unfold comboQ
-  cases hp : cb.percent with
-  | none => rfl
-  | some p => simp [hr, hs, Spec.C01.pq]
-
-theorem comboQ_diff (T t : ℚ) (cb : Combo) (h : ComboOk cb) : |comboQ T cb - comboQ t cb| ≤ |T - t| := by
-  unfold comboQ
+  obtain ⟨_, hs, _⟩ := h cb hcb
+  unfold comboQ comboU
   cases hp : cb.percent with
   | none => simp
-  | some p =>
-    simp only
-    have hle := h.2.2 p hp
-    have e : T * p.amount.toRat - t * p.amount.toRat = (T - t) * p.amount.toRat := by ring
-    rw [e, abs_mul]
-    calc |T - t| * |p.amount.toRat| ≤ |T - t| * 1 := mul_le_mul_of_nonneg_left hle (abs_nonneg _)
-      _ = |T - t| := mul_one _
+  | some p => simp [hs, Spec.C01.pq]
 
-theorem rowQ_diff (T t : ℚ) (taxes : List Combo) (h : ∀ cb ∈ taxes, ComboOk cb) :
+theorem comboQ_diff (T t : ℚ) (cb : Combo) (h : ComboOk ret cb) : |comboQ T cb - comboQ t cb| ≤ |T - t| := by
+  have hu : |comboU T cb - comboU t cb| ≤ |T - t| := by
+    unfold comboU
+    cases hp : cb.percent with
+    | none => simp
+    | some p =>
+      simp only
+      have hle := h.2.2 p hp
+      have e : T * p.amount.toRat - t * p.amount.toRat = (T - t) * p.amount.toRat := by ring
+      rw [e, abs_mul]
+      calc |T - t| * |p.amount.toRat| ≤ |T - t| * 1 := mul_le_mul_of_nonneg_left hle (abs_nonneg _)
+        _ = |T - t| := mul_one _
+  unfold comboQ
+  split
+  · have e : -(comboU T cb) - -(comboU t cb) = -(comboU T cb - comboU t cb) := by ring
+    rw [e, abs_neg]; exact hu
+  · exact hu
+
+theorem rowQ_diff (T t : ℚ) (taxes : List Combo) (h : ∀ cb ∈ taxes, ComboOk ret cb) :
     |rowQ T taxes - rowQ t taxes| ≤ (taxes.length : ℚ) * |T - t| := by
   rw [rowQ_eq T taxes h, rowQ_eq t taxes h]
   exact list_sum_diff_le taxes (comboQ T) (comboQ t) _ (fun cb hcb => comboQ_diff T t cb (h cb hcb))
@@ -752,7 +764,9 @@ def rateQ (rt : RateTotal) : ℚ :=
   | none => 0
 
 def ratesQ (rts : List RateTotal) : ℚ := (rts.map rateQ).sum
-def catsQ (cats : List CatTotal) : ℚ := (cats.map (fun ct => ratesQ ct.rates)).sum
+/-- retained categories count negatively -/
+def catsQ (cats : List CatTotal) : ℚ :=
+  (cats.map (fun ct => if ct.retained then -(ratesQ ct.rates) else ratesQ ct.rates)).sum
 
 /-- every group has no surcharge and a base between the working precision and `E` -/
 def RatesInv (c E : ℕ) (rts : List RateTotal) : Prop :=
@@ -767,14 +781,14 @@ theorem base_step_precise (base t : Amount) :
 
 theorem addToRates_w (c E : ℕ) (cb : Combo) (t : Amount) (rts : List RateTotal)
     (hcb : cb.surcharge = none) (ht1 : c + 2 ≤ t.exp) (ht2 : t.exp ≤ E) (hinv : RatesInv c E rts) :
-    ratesQ (addToRates exactOps .precise c cb t rts) = ratesQ rts + comboQ t.toRat cb ∧
+    ratesQ (addToRates exactOps .precise c cb t rts) = ratesQ rts + comboU t.toRat cb ∧
     RatesInv c E (addToRates exactOps .precise c cb t rts) := by
   induction rts with
   | nil =>
     obtain ⟨b1, b2⟩ := base_step_precise ⟨0, c⟩ t
     simp only [addToRates, newRate, ratesQ, List.map_cons, List.map_nil, List.sum_cons, List.sum_nil]
     refine ⟨?_, ?_⟩
-    · simp only [rateQ, comboQ, b1]
+    · simp only [rateQ, comboU, b1]
       cases cb.percent <;> simp [Amount.toRat]
     · intro rt hrt
       simp only [List.mem_singleton] at hrt
@@ -790,10 +804,10 @@ theorem addToRates_w (c E : ℕ) (cb : Combo) (t : Amount) (rts : List RateTotal
       obtain ⟨b1, b2⟩ := base_step_precise rt.base t
       refine ⟨?_, ?_⟩
       · simp only [ratesQ, List.map_cons, List.sum_cons]
-        have : rateQ { rt with base := add exactOps (mrp .precise rt.base t) t } = rateQ rt + comboQ t.toRat cb := by
+        have : rateQ { rt with base := add exactOps (mrp .precise rt.base t) t } = rateQ rt + comboU t.toRat cb := by
           rcases rtMatches_percent rt cb hm with ⟨h1, h2⟩ | ⟨p, q, h1, h2, h3⟩
-          · simp [rateQ, comboQ, h1, h2]
-          · simp only [rateQ, comboQ, h1, h2, b1, h3]; ring
+          · simp [rateQ, comboU, h1, h2]
+          · simp only [rateQ, comboU, h1, h2, b1, h3]; ring
         rw [this]; ring
       · intro x hx
         simp only [List.mem_cons] at hx
@@ -810,30 +824,34 @@ theorem addToRates_w (c E : ℕ) (cb : Combo) (t : Amount) (rts : List RateTotal
         · exact hinv x (by simp)
         · exact i2 x hx
 
-def CatsInv (c E : ℕ) (cats : List CatTotal) : Prop :=
-  ∀ ct ∈ cats, ct.retained = false ∧ RatesInv c E ct.rates
+def CatsInv (ret : String → Bool) (c E : ℕ) (cats : List CatTotal) : Prop :=
+  ∀ ct ∈ cats, ct.retained = ret ct.code ∧ RatesInv c E ct.rates
 
 theorem addToCats_w (c E : ℕ) (cb : Combo) (t : Amount) (cats : List CatTotal)
-    (hcb : ComboOk cb) (ht1 : c + 2 ≤ t.exp) (ht2 : t.exp ≤ E) (hinv : CatsInv c E cats) :
+    (hcb : ComboOk ret cb) (ht1 : c + 2 ≤ t.exp) (ht2 : t.exp ≤ E) (hinv : CatsInv ret c E cats) :
     catsQ (addToCats exactOps .precise c cb t cats) = catsQ cats + comboQ t.toRat cb ∧
-    CatsInv c E (addToCats exactOps .precise c cb t cats) := by
+    CatsInv ret c E (addToCats exactOps .precise c cb t cats) := by
   induction cats with
   | nil =>
     obtain ⟨h1, h2⟩ := addToRates_w c E cb t [] hcb.2.1 ht1 ht2 (fun _ h => by simp at h)
     simp only [addToCats, catsQ, List.map_cons, List.map_nil, List.sum_cons, List.sum_nil]
     refine ⟨?_, ?_⟩
-    · rw [h1]; simp [ratesQ]
+    · rw [h1]; simp [ratesQ, comboQ]
     · intro ct hct
       simp only [List.mem_singleton] at hct
       subst hct
       exact ⟨hcb.1, h2⟩
   | cons ct cts ih =>
-    have hinv' : CatsInv c E cts := fun x hx => hinv x (by simp [hx])
+    have hinv' : CatsInv ret c E cts := fun x hx => hinv x (by simp [hx])
     simp only [addToCats]
     split
-    · obtain ⟨h1, h2⟩ := addToRates_w c E cb t ct.rates hcb.2.1 ht1 ht2 (hinv ct (by simp)).2
+    · rename_i hcode
+      have hcode' : ct.code = cb.cat := by simpa using hcode
+      have hsame : ct.retained = cb.retained := by rw [(hinv ct (by simp)).1, hcb.1, hcode']
+      obtain ⟨h1, h2⟩ := addToRates_w c E cb t ct.rates hcb.2.1 ht1 ht2 (hinv ct (by simp)).2
       refine ⟨?_, ?_⟩
-      · simp only [catsQ, List.map_cons, List.sum_cons, h1]; ring
+      · simp only [catsQ, List.map_cons, List.sum_cons, h1, comboQ, hsame]
+        split <;> ring
       · intro x hx
         simp only [List.mem_cons] at hx
         rcases hx with rfl | hx
@@ -850,10 +868,10 @@ theorem addToCats_w (c E : ℕ) (cb : Combo) (t : Amount) (cats : List CatTotal)
         · exact i2 x hx
 
 theorem foldCombos_w (c E : ℕ) (t : Amount) (cbs : List Combo) (cats : List CatTotal)
-    (hcb : ∀ cb ∈ cbs, ComboOk cb) (ht1 : cbs ≠ [] → c + 2 ≤ t.exp) (ht2 : t.exp ≤ E) (hinv : CatsInv c E cats) :
+    (hcb : ∀ cb ∈ cbs, ComboOk ret cb) (ht1 : cbs ≠ [] → c + 2 ≤ t.exp) (ht2 : t.exp ≤ E) (hinv : CatsInv ret c E cats) :
     catsQ (cbs.foldl (fun cats cb => addToCats exactOps .precise c cb t cats) cats) =
       catsQ cats + (cbs.map (comboQ t.toRat)).sum ∧
-    CatsInv c E (cbs.foldl (fun cats cb => addToCats exactOps .precise c cb t cats) cats) := by
+    CatsInv ret c E (cbs.foldl (fun cats cb => addToCats exactOps .precise c cb t cats) cats) := by
   induction cbs generalizing cats with
   | nil => simp [hinv]
   | cons cb cbs ih =>
@@ -867,18 +885,18 @@ theorem foldCombos_w (c E : ℕ) (t : Amount) (cbs : List Combo) (cats : List Ca
 
 /-- a prepared row of the covered class: combos of the class, total not finer than `E` and, when
 it carries combos, at least as fine as the working precision -/
-def RowOkP (c E : ℕ) (rw : Row) : Prop :=
-  (∀ cb ∈ rw.taxes, ComboOk cb) ∧ (rw.taxes ≠ [] → c + 2 ≤ rw.total.exp) ∧ rw.total.exp ≤ E
+def RowOkP (ret : String → Bool) (c E : ℕ) (rw : Row) : Prop :=
+  (∀ cb ∈ rw.taxes, ComboOk ret cb) ∧ (rw.taxes ≠ [] → c + 2 ≤ rw.total.exp) ∧ rw.total.exp ≤ E
 
 /-- a row of the covered class (before `prepareLines`): combos of the class, total not finer than `E` -/
-def RowOk (E : ℕ) (rw : Row) : Prop :=
-  (∀ cb ∈ rw.taxes, ComboOk cb) ∧ rw.total.exp ≤ E
+def RowOk (ret : String → Bool) (E : ℕ) (rw : Row) : Prop :=
+  (∀ cb ∈ rw.taxes, ComboOk ret cb) ∧ rw.total.exp ≤ E
 
 theorem baseRateTotals_w (c E : ℕ) (rows : List Row) (cats : List CatTotal)
-    (hrows : ∀ rw ∈ rows, RowOkP c E rw) (hinv : CatsInv c E cats) :
+    (hrows : ∀ rw ∈ rows, RowOkP ret c E rw) (hinv : CatsInv ret c E cats) :
     catsQ (rows.foldl (fun cats rw => rw.taxes.foldl (fun cats cb => addToCats exactOps .precise c cb rw.total cats) cats) cats) =
       catsQ cats + (rows.map (fun rw => rowQ rw.total.toRat rw.taxes)).sum ∧
-    CatsInv c E (rows.foldl (fun cats rw => rw.taxes.foldl (fun cats cb => addToCats exactOps .precise c cb rw.total cats) cats) cats) := by
+    CatsInv ret c E (rows.foldl (fun cats rw => rw.taxes.foldl (fun cats cb => addToCats exactOps .precise c cb rw.total cats) cats) cats) := by
   induction rows generalizing cats with
   | nil => simp [hinv]
   | cons rw rows ih =>
@@ -957,13 +975,13 @@ theorem amountFold_exp_le (E : ℕ) (rates : List RateTotal) (z : Amount) (hz : 
 
 /-- one category: no surcharge, not retained, amount not finer than `E`, within one half-unit per
 group of Σ base × percentage -/
-theorem catAmounts_w (c E : ℕ) (ct : CatTotal) (hr : ct.retained = false) (hinv : RatesInv c E ct.rates) (hc : c ≤ E) :
-    (catAmounts exactOps .precise c ct).retained = false ∧
+theorem catAmounts_w (c E : ℕ) (ct : CatTotal) (hinv : RatesInv c E ct.rates) (hc : c ≤ E) :
+    (catAmounts exactOps .precise c ct).retained = ct.retained ∧
     (catAmounts exactOps .precise c ct).surcharge = none ∧
     (catAmounts exactOps .precise c ct).amount.exp ≤ E ∧
     (catAmounts exactOps .precise c ct).rates.length = ct.rates.length ∧
     |(catAmounts exactOps .precise c ct).amount.toRat - ratesQ ct.rates| ≤ (ct.rates.length : ℚ) * halfUlp (c + 2) := by
-  refine ⟨hr, ?_, ?_, ?_, ?_⟩
+  refine ⟨rfl, ?_, ?_, ?_, ?_⟩
   · simp only [catAmounts]
     apply surchargeFold_none
     intro rt hrt
@@ -1013,7 +1031,7 @@ theorem finalSum_exp_le (c E : ℕ) (cats : List CatTotal) (hc : c ≤ E)
 /-- number of rate groups of a tax summary -/
 def groupsOf (cats : List CatTotal) : ℕ := (cats.map (·.rates.length)).sum
 
-theorem cats_w (c E : ℕ) (cats : List CatTotal) (hinv : CatsInv c E cats) (hc : c ≤ E) :
+theorem cats_w (c E : ℕ) (cats : List CatTotal) (hinv : CatsInv ret c E cats) (hc : c ≤ E) :
     (finalSum exactOps .precise c (cats.map (catAmounts exactOps .precise c))).exp ≤ E ∧
     groupsOf (cats.map (catAmounts exactOps .precise c)) = groupsOf cats ∧
     |(finalSum exactOps .precise c (cats.map (catAmounts exactOps .precise c))).toRat - catsQ cats| ≤
@@ -1022,7 +1040,7 @@ theorem cats_w (c E : ℕ) (cats : List CatTotal) (hinv : CatsInv c E cats) (hc 
     intro ct hct
     simp only [List.mem_map] at hct
     obtain ⟨x, hx, rfl⟩ := hct
-    obtain ⟨_, h2, h3, _, _⟩ := catAmounts_w c E x (hinv x hx).1 (hinv x hx).2 hc
+    obtain ⟨_, h2, h3, _, _⟩ := catAmounts_w c E x (hinv x hx).2 hc
     exact ⟨h2, h3⟩
   refine ⟨finalSum_exp_le c E _ hc hall, ?_, ?_⟩
   · unfold groupsOf
@@ -1030,27 +1048,35 @@ theorem cats_w (c E : ℕ) (cats : List CatTotal) (hinv : CatsInv c E cats) (hc 
     congr 1
     apply List.map_congr_left
     intro x hx
-    exact (catAmounts_w c E x (hinv x hx).1 (hinv x hx).2 hc).2.2.2.1
+    exact (catAmounts_w c E x (hinv x hx).2 hc).2.2.2.1
   · rw [finalSum_toRat .precise (by decide) c _ (fun ct hct s hs => by rw [(hall ct hct).1] at hs; cases hs)]
     rw [List.map_map]
     unfold catsQ groupsOf
-    have hB : ∀ x ∈ cats, |(catSignedQ ∘ catAmounts exactOps .precise c) x - ratesQ x.rates| ≤
+    have hB : ∀ x ∈ cats, |(catSignedQ ∘ catAmounts exactOps .precise c) x
+          - (if x.retained then -(ratesQ x.rates) else ratesQ x.rates)| ≤
         ((x.rates.length : ℕ) : ℚ) * halfUlp (c + 2) := by
       intro x hx
-      obtain ⟨h1, h2, _, _, h5⟩ := catAmounts_w c E x (hinv x hx).1 (hinv x hx).2 hc
-      have : catSignedQ (catAmounts exactOps .precise c x) = (catAmounts exactOps .precise c x).amount.toRat := by
+      obtain ⟨h1, h2, _, _, h5⟩ := catAmounts_w c E x (hinv x hx).2 hc
+      have : catSignedQ (catAmounts exactOps .precise c x) =
+          if x.retained then -((catAmounts exactOps .precise c x).amount.toRat)
+          else (catAmounts exactOps .precise c x).amount.toRat := by
         unfold catSignedQ
         simp [h1, h2]
       simp only [Function.comp]
       rw [this]
-      exact h5
-    have := list_sum_diff_le' cats _ (fun x => ratesQ x.rates) (fun x => ((x.rates.length : ℕ) : ℚ) * halfUlp (c + 2)) hB
+      split
+      · have e : -((catAmounts exactOps .precise c x).amount.toRat) - -(ratesQ x.rates) =
+            -((catAmounts exactOps .precise c x).amount.toRat - ratesQ x.rates) := by ring
+        rw [e, abs_neg]; exact h5
+      · exact h5
+    have := list_sum_diff_le' cats _ (fun x => if x.retained then -(ratesQ x.rates) else ratesQ x.rates)
+      (fun x => ((x.rates.length : ℕ) : ℚ) * halfUlp (c + 2)) hB
     exact le_trans this (le_of_eq (sum_map_mul_const cats (·.rates.length) _))
 
 /-! ### `taxTotal` as a whole -/
 
-theorem prepareRow_ok (c E : ℕ) (rw : Row) (h : RowOk E rw) (hE : c + 2 ≤ E) :
-    RowOkP c E (prepareRow c rw) ∧ (prepareRow c rw).total.toRat = rw.total.toRat ∧
+theorem prepareRow_ok (c E : ℕ) (rw : Row) (h : RowOk ret E rw) (hE : c + 2 ≤ E) :
+    RowOkP ret c E (prepareRow c rw) ∧ (prepareRow c rw).total.toRat = rw.total.toRat ∧
     (prepareRow c rw).taxes = rw.taxes := by
   unfold prepareRow
   split
@@ -1096,7 +1122,7 @@ theorem precise_roundTax (c : ℕ) (cats : List CatTotal) (fs : Amount) :
 
 /-- **the working tax** (precise rule, prices not including tax, rows of the class): not finer
 than `E`, and within one half-unit per rate group of Σ rows' exact tax on the *working* row totals -/
-theorem taxTotal_w (c E : ℕ) (rows : List Row) (tx : TaxTotal) (hrows : ∀ rw ∈ rows, RowOk E rw) (hE : c + 2 ≤ E)
+theorem taxTotal_w (c E : ℕ) (rows : List Row) (tx : TaxTotal) (hrows : ∀ rw ∈ rows, RowOk ret E rw) (hE : c + 2 ≤ E)
     (h : taxTotal exactOps .precise c none rows = .ok tx) :
     tx.precise.exp ≤ E ∧
     |tx.precise.toRat - (rows.map (fun rw => rowQ rw.total.toRat rw.taxes)).sum| ≤
@@ -1105,7 +1131,7 @@ theorem taxTotal_w (c E : ℕ) (rows : List Row) (tx : TaxTotal) (hrows : ∀ rw
   unfold taxTotal at h
   simp only at h
   injection h with h
-  have hprep : ∀ rw ∈ rows.map (prepareRow c), RowOkP c E rw := by
+  have hprep : ∀ rw ∈ rows.map (prepareRow c), RowOkP ret c E rw := by
     intro rw hrw
     simp only [List.mem_map] at hrw
     obtain ⟨x, hx, rfl⟩ := hrw
@@ -1150,12 +1176,12 @@ theorem docAdj_taxes (r : Rule) (c : ℕ) (sum : Amount) (x : DocAdj) :
 
 /-- step 2's document class: `DocA`, prices not including tax, every tax combo (on lines and on
 document discounts / charges) ordinary: not retained, no surcharge, exempt or a percentage ≤ 100 % -/
-structure DocT (d : Doc) : Prop where
+structure DocT (ret : String → Bool) (d : Doc) : Prop where
   base : DocA d
   inc : d.includes = none
-  lineTaxes : ∀ l ∈ d.lines, ∀ cb ∈ l.taxes, ComboOk cb
-  discTaxes : ∀ x ∈ d.discounts, ∀ cb ∈ x.taxes, ComboOk cb
-  chTaxes : ∀ x ∈ d.charges, ∀ cb ∈ x.taxes, ComboOk cb
+  lineTaxes : ∀ l ∈ d.lines, ∀ cb ∈ l.taxes, ComboOk ret cb
+  discTaxes : ∀ x ∈ d.discounts, ∀ cb ∈ x.taxes, ComboOk ret cb
+  chTaxes : ∀ x ∈ d.charges, ∀ cb ∈ x.taxes, ComboOk ret cb
 
 /-- error carried into the tax by the line totals: weight of the line × number of its combos -/
 def linesTaxW (ls : List Line) : ℕ := (ls.map (fun l => lineW l * l.taxes.length)).sum
@@ -1182,7 +1208,7 @@ theorem rows_sum (lines : List Line) (discounts charges : List DocAdj) :
     Function.comp_def, Option.map_map]
 
 theorem rel_rows (cur : String) (c : ℕ) (rates : List XRate) (ls ls' : List Line)
-    (h : List.Forall₂ (LineRel cur rates c) ls ls') (htx : ∀ l ∈ ls, ∀ cb ∈ l.taxes, ComboOk cb) :
+    (h : List.Forall₂ (LineRel cur rates c) ls ls') (htx : ∀ l ∈ ls, ∀ cb ∈ l.taxes, ComboOk ret cb) :
     |(ls'.filterMap (fun l => l.total.map (fun t => rowQ t.toRat l.taxes))).sum
       - (ls.filterMap (fun l => (Spec.C01.lineTotalQ cur rates l).map (fun t => rowQ t l.taxes))).sum| ≤
       (linesTaxW ls : ℚ) * halfUlp (c + 2) := by
@@ -1224,7 +1250,7 @@ theorem docAdj_err (c : ℕ) (sum : Amount) (S W : ℚ) (x : DocAdj) (hx : DocAd
   linarith
 
 theorem adjRows_err (c : ℕ) (sum : Amount) (S : ℚ) (W : ℕ) (xs : List DocAdj) (sgn : Bool)
-    (hx : ∀ x ∈ xs, DocAdjOk c x) (htx : ∀ x ∈ xs, ∀ cb ∈ x.taxes, ComboOk cb) (hs : c + 2 ≤ sum.exp)
+    (hx : ∀ x ∈ xs, DocAdjOk c x) (htx : ∀ x ∈ xs, ∀ cb ∈ x.taxes, ComboOk ret cb) (hs : c + 2 ≤ sum.exp)
     (hS : |sum.toRat - S| ≤ (W : ℚ) * halfUlp (c + 2)) :
     |((xs.map (docAdj exactOps .precise c sum)).map
         (fun x => rowQ (if sgn then (neg x.amount).toRat else x.amount.toRat) x.taxes)).sum
@@ -1260,13 +1286,13 @@ theorem adjRows_err (c : ℕ) (sum : Amount) (S : ℚ) (W : ℕ) (xs : List DocA
   unfold adjTaxW
   exact sum_map_mul_const xs (fun x => (1 + W) * x.taxes.length) _
 
-theorem doc_tax_w (d : Doc) (p : Pre) (tx : TaxTotal) (hd : DocT d) (hpre : pre exactOps d = .ok p)
+theorem doc_tax_w (d : Doc) (p : Pre) (tx : TaxTotal) (hd : DocT ret d) (hpre : pre exactOps d = .ok p)
     (htx : taxTotal exactOps d.rule d.c d.includes p.rows = .ok tx) :
     tx.precise.exp ≤ p.sum.exp ∧
     |tx.precise.toRat - (Spec.C01.exactQ d).tax| ≤ (taxW d (groupsOf tx.cats) : ℚ) * halfUlp (d.c + 2) := by
   obtain ⟨hrel, hsum, hsexp, hS, hdis, hch, hrows, _, _⟩ := pre_spec d p hd.base hpre
   rw [hd.base.rule, hd.inc, hrows] at htx
-  have hrowsOk : ∀ rw ∈ taxRows p.lines p.discounts p.charges, RowOk p.sum.exp rw := by
+  have hrowsOk : ∀ rw ∈ taxRows p.lines p.discounts p.charges, RowOk ret p.sum.exp rw := by
     intro rw hrw
     simp only [taxRows, List.mem_append, List.mem_filterMap, List.mem_map] at hrw
     rcases hrw with (⟨l', hl', hrw⟩ | ⟨x, hx, rfl⟩) | ⟨x, hx, rfl⟩
@@ -1419,8 +1445,8 @@ theorem rawTotals_fields (d : Doc) (p : Pre) (tx : TaxTotal) (hinc : d.includes 
 
 /-- the document class of `calc_eq_spec`: `DocT`, an externally supplied `totals.rounding` not finer
 than the working precision, advances of the class `AdvOk` -/
-structure DocC (d : Doc) : Prop where
-  tax : DocT d
+structure DocC (ret : String → Bool) (d : Doc) : Prop where
+  tax : DocT ret d
   rounding : ∀ x, d.rounding = some x → x.exp ≤ d.c + 2
   advances : ∀ a ∈ d.advances, AdvOk d.c a
 
@@ -1443,7 +1469,7 @@ theorem adjTotal_err (sumR S P D kd W h : ℚ) (hS : |sumR - S| ≤ W * h) (hD :
     exact mul_le_mul hS hP (abs_nonneg _) (by positivity)
   nlinarith
 
-theorem working_tax (d : Doc) (p : Pre) (tx : TaxTotal) (hd : DocT d) (hpre : pre exactOps d = .ok p)
+theorem working_tax (d : Doc) (p : Pre) (tx : TaxTotal) (hd : DocT ret d) (hpre : pre exactOps d = .ok p)
     (htx : taxTotal exactOps d.rule d.c d.includes p.rows = .ok tx) :
     (d.c + 2 ≤ p.sum.exp ∧ p.total2.exp = p.sum.exp ∧ (add exactOps p.total2 tx.precise).exp = p.sum.exp) ∧
     |(rawTotals exactOps d p tx).sum.toRat - (Spec.C01.exactQ d).sum| ≤
@@ -1500,7 +1526,7 @@ theorem working_tax (d : Doc) (p : Pre) (tx : TaxTotal) (hd : DocT d) (hpre : pr
   exact ⟨⟨hsexp, te, htwe⟩, by rw [f1]; exact hS, by rw [f2]; exact hD, by rw [f3]; exact hC, by rw [f5]; exact hT,
     by rw [f6]; exact x2, by rw [f7]; exact hTW⟩
 
-theorem working_spec (d : Doc) (p : Pre) (tx : TaxTotal) (hd : DocC d) (hpre : pre exactOps d = .ok p)
+theorem working_spec (d : Doc) (p : Pre) (tx : TaxTotal) (hd : DocC ret d) (hpre : pre exactOps d = .ok p)
     (htx : taxTotal exactOps d.rule d.c d.includes p.rows = .ok tx) :
     |(rawTotals exactOps d p tx).sum.toRat - (Spec.C01.exactQ d).sum| ≤
       (sumW d.lines : ℚ) * halfUlp (d.c + 2) ∧
